@@ -80,7 +80,9 @@ TYPE = {'R': 'resistor', 'G': 'conductance', 'Z': 'impedance', 'C': 'capacitor',
         'I': 'current_source', 'ACV': 'ac_voltage_source', 'ACI': 'ac_current_source', 'CV': 'complex_voltage_source', 'CI': 'complex_current_source', 'gnd': 'ground', 'label': 'node'}
 
 
-def replay_decl(case, ctx, r, tg):
+def decl_elements(case, tg=None):
+    """the declarative element list (dictionaries for create_schematic) of a scenario of MC_C15"""
+    tg = set() if tg is None else tg
     ents, prog, netlist = case['ents'], case['prog'], case['netlist']
     h = stable_hash(ents)
     scheme = h % N_SCHEMES
@@ -145,6 +147,12 @@ def replay_decl(case, ctx, r, tg):
             d['place_after'] = names[en['after']]
             tg.add('decl:place_after')
         elements.append(d)
+    return elements, names, label_names, gnd_name, naming, scheme, unit
+
+
+def replay_decl(case, ctx, r, tg):
+    ents, prog, netlist = case['ents'], case['prog'], case['netlist']
+    elements, names, label_names, gnd_name, naming, scheme, unit = decl_elements(case, tg)
     import matplotlib.pyplot as plt
     snap = repr(elements)
     try:
